@@ -20,6 +20,7 @@
 From V.lib Require Import Base.
 From V.c13 Require Import C13Model.
 From V.c15 Require Import C15Model.
+From V.c16 Require Import C16Model.
 
 Section C16Parsers.
   Context {St : Type} (R : reader St).
@@ -205,6 +206,24 @@ Definition c16_parse_pps (spsmap : N -> option N) (nalu : list N) : res pps :=
 Definition c16_parse_slice (spsmap : N -> option sps) (ppsmap : N -> option pps) (nalu : list N)
   : res slice_hdr :=
   run (parse_slice_header_d ER (parse_fuel nalu) spsmap ppsmap) (rinit nalu).
+
+(* ---- avc.GetSliceTypeFromNALU(data) (avc/slice.go): data[0] and data[1:] are PARTIAL here (Panic out
+   of range, C16Model.idx / slice); the length test in front of them is what keeps them in range.
+     if len(data) <= 1 { err }; naluType := data[0] & 0x1f; not 1,2,5,19 -> err
+     r := NewEBSPReader(data[1:]); _ = ue; sliceType = ue; AccError -> err; > 9 -> err; >= 5 -> -= 5 *)
+Definition get_slice_type (data : list N) : res N :=
+  if (lenZ data <=? 1)%Z then Err
+  else
+    do b0 <- idx data 0;
+    let t := avc_nalu_type b0 in
+    if negb ((t =? 1) || (t =? 2) || (t =? 5) || (t =? 19)) then Err
+    else
+      do rest <- slice data 1 (lenZ data);
+      let '(_, s1) := read_ue (rinit rest) in
+      let '(st, s2) := read_ue s1 in
+      if 9 <? st then Err
+      else if rerr s2 then Err
+      else Ok (if 5 <=? st then st - 5 else st).
 
 (* ---- what the correspondence needs: maps built from lists of already parsed sets (Go: map[uint32]*SPS
    filled in order, later entries overwrite earlier ones with the same id) *)
